@@ -1,6 +1,6 @@
 CONSTANTS
   DirLen = 6
-  MaxLen = 6
+  MaxLen = 5
 INIT Init
 NEXT Next
 INVARIANTS Verbatim Emit
